@@ -104,7 +104,7 @@ if __name__ == "__main__":
              source_obligation("WiringSrc_C07", translate_wiring.translate, "WiringSrcProof.v", ["connect_src_is_step"]),
              source_obligation("StructSrc_C07", translate_struct.translate, "StructSrcProof.v",
                                ["add_conn_src_is_add_conn", "cut_connections_src_is_model", "add_structure_src_is_step_add",
-                                "maps_all_pins_src_is_step_raise"])],
+                                "maps_all_pins_src_is_step_raise", "remove_connections_src_is_model"])],
          level_text="props/C07.v: the invariant relating the solver's tables (connections, connections_list, free_pins) to the "
                     "present structures is preserved by every operation, hence holds after every history; free pins are exactly "
                     "the unconnected pins of the remaining components. The tie replays random add/connect/cut/remove/re-add/"
